@@ -1,10 +1,10 @@
 (* C09 - output VCF records are valid against their reference and reproduce the oligo.
    Kernel level: the record built by the model of vcf_writer.py from the alleles that the model of the to_csv loop
    body (Model/ToCsv.v) hands to it.  Row level (generated mutators): the records the loop body writes for a row - anchors,
-   widening to PAM codons included - are valid and reproduce the oligonucleotide / the mutated reference.  Rows of custom
-   variants (their own VCF anchor) and the PAM record under background variants are tied to the code row by row by the
-   correspondence and judged by the independent oracle of the check (partial). *)
-From VV Require Import Model.Base Model.Pattern Model.Seq Model.Vcf Model.Gpo Model.ToCsv Proofs.VcfRecordProofs Proofs.MaveRowProofs Proofs.VcfRowProofs.
+   widening to PAM codons included - are valid and reproduce the oligonucleotide / the mutated reference; rows of custom
+   variants (their own VCF anchor for the reference alleles) likewise.  The PAM record under background variants is tied to
+   the code row by row by the correspondence and judged by the independent oracle of the check (partial). *)
+From VV Require Import Model.Base Model.Pattern Model.Seq Model.Vcf Model.Gpo Model.ToCsv Proofs.VcfRecordProofs Proofs.MaveRowProofs Proofs.VcfRowProofs Proofs.VcfRowCustomProofs.
 
 (* substitutions and widened records (both alleles non-empty, no anchor): no empty allele, REF is the sequence at POS,
    REF->ALT reproduces the target, for any flanks P, S *)
@@ -58,6 +58,65 @@ Example C09_row_example :
   end.
 Proof. exact row_records_example. Qed.
 
+(* rows of custom variants.  An insertion or deletion carries the anchor of its own VCF record (vcf_nt = v): when v is the reference base
+   before the change - the record's REF matched the genome - the REF-VCF record is valid against the reference and reproduces the mutated
+   reference; substitutions and deletion-insertions (no anchor) likewise; the PAM-VCF records take the protected base as anchor and are
+   valid against the protected sequence *)
+Theorem C09_custom_indel_ref_record_ok : forall c mr o x0 (R : dna) pr r v,
+  row_out c mr = Ok o -> o_vcf_ref o = Some r -> mr_custom mr = true -> mr_vcf_nt mr = Some v ->
+  get_nt (cx_seq c) (mr_ref_pos mr - 1) = Ok v -> 1 < mr_alt_pos mr -> (mr_ref mr = [] \/ mr_alt mr = []) ->
+  p_seq (cx_seq c) = mkSeq x0 R -> p_prev (cx_seq c) = Some pr -> 1 <= x0 ->
+  let a := mr_ref_pos mr - x0 in
+  0 <= a -> a + zlen (mr_ref mr) <= zlen R -> 4 <= mr_ref_pos mr ->
+  rec_ok (x0 - 1) (pr :: R) r (pr :: zfirstn a R ++ mr_alt mr ++ zskipn (a + zlen (mr_ref mr)) R).
+Proof. exact row_ref_record_ok_custom_indel. Qed.
+
+Theorem C09_custom_subst_ref_record_ok : forall c mr o x0 (R : dna) pr r,
+  row_out c mr = Ok o -> o_vcf_ref o = Some r -> mr_custom mr = true -> mr_vcf_nt mr = None ->
+  mr_ref mr <> [] -> mr_alt mr <> [] ->
+  p_seq (cx_seq c) = mkSeq x0 R -> p_prev (cx_seq c) = Some pr -> 1 <= x0 ->
+  let a := mr_ref_pos mr - x0 in
+  0 <= a -> a + zlen (mr_ref mr) <= zlen R -> 4 <= mr_ref_pos mr ->
+  rec_ok (x0 - 1) (pr :: R) r (pr :: zfirstn a R ++ mr_alt mr ++ zskipn (a + zlen (mr_ref mr)) R).
+Proof. exact row_ref_record_ok_custom_subst. Qed.
+
+Theorem C09_custom_indel_pam_record_ok : forall c mr o x0 (T : dna) pv r v,
+  row_out c mr = Ok o -> o_vcf_pam o = Some r -> cx_gpo c = None -> mr_custom mr = true -> mr_vcf_nt mr = Some v ->
+  (mr_ref mr = [] \/ mr_alt mr = []) ->
+  p_seq (cx_alt c) = mkSeq x0 T -> p_prev (cx_alt c) = Some pv -> s_start (p_seq (cx_seq c)) = x0 -> 1 <= x0 ->
+  mr_ref_pos mr = mr_alt_pos mr -> mr_end mr = get_end (mr_alt_pos mr) (zlen (mr_ref mr)) ->
+  let a := mr_alt_pos mr - x0 in
+  0 <= a -> a + zlen (mr_ref mr) <= zlen T -> 4 <= mr_alt_pos mr ->
+  x0 <= opt_min (mr_alt_pos mr) (mr_start_ppe mr) -> opt_max (mr_end mr) (mr_end_ppe mr) <= x0 + zlen T - 1 ->
+  mr_oligo mr = zfirstn a T ++ mr_alt mr ++ zskipn (a + zlen (mr_ref mr)) T ->
+  rec_ok (x0 - 1) (pv :: T) r (pv :: mr_oligo mr).
+Proof. exact row_pam_record_ok_custom_indel. Qed.
+
+Theorem C09_custom_subst_pam_record_ok : forall c mr o x0 (T : dna) pv r,
+  row_out c mr = Ok o -> o_vcf_pam o = Some r -> cx_gpo c = None -> mr_custom mr = true -> mr_vcf_nt mr = None ->
+  mr_ref mr <> [] -> mr_alt mr <> [] ->
+  p_seq (cx_alt c) = mkSeq x0 T -> p_prev (cx_alt c) = Some pv -> s_start (p_seq (cx_seq c)) = x0 -> 1 <= x0 ->
+  mr_ref_pos mr = mr_alt_pos mr -> mr_end mr = get_end (mr_alt_pos mr) (zlen (mr_ref mr)) ->
+  let a := mr_alt_pos mr - x0 in
+  0 <= a -> a + zlen (mr_ref mr) <= zlen T -> 4 <= mr_alt_pos mr ->
+  x0 <= opt_min (mr_alt_pos mr) (mr_start_ppe mr) -> opt_max (mr_end mr) (mr_end_ppe mr) <= x0 + zlen T - 1 ->
+  mr_oligo mr = zfirstn a T ++ mr_alt mr ++ zskipn (a + zlen (mr_ref mr)) T ->
+  rec_ok (x0 - 1) (pv :: T) r (pv :: mr_oligo mr).
+Proof. exact row_pam_record_ok_custom_subst. Qed.
+
+(* non-vacuity: the custom deletion 105 CG>C *)
+Example C09_custom_example :
+  match row_out ex_ctx ex_custom_del with
+  | Ok o => match o_vcf_ref o, o_vcf_pam o with
+            | Some r1, Some r2 =>
+                r1 = mkRec 105 (d "CG") (d "C") None /\ r2 = mkRec 105 (d "CG") (d "C") None /\
+                rec_ok 99 (G :: d "ACGTACGTAC") r1 (G :: d "ACGTACTAC") /\ rec_ok 99 (G :: d "ACGTTCGTAC") r2 (G :: d "ACGTTCTAC")
+            | _, _ => False
+            end
+  | Err _ => False
+  end.
+Proof. exact custom_records_example. Qed.
+
 (* SGE_REF is present exactly when the unprotected allele differs from REF over the record's span, and then equals it *)
 Theorem C09_sge_ref_iff : forall start ref alt sge r,
   mk_record start ref alt (Some sge) = Ok r ->
@@ -76,3 +135,8 @@ Print Assumptions C09_record_anchored.
 Print Assumptions C09_sge_ref_iff.
 Print Assumptions C09_row_pam_record_ok.
 Print Assumptions C09_row_ref_record_ok.
+Print Assumptions C09_custom_indel_ref_record_ok.
+Print Assumptions C09_custom_subst_ref_record_ok.
+Print Assumptions C09_custom_indel_pam_record_ok.
+Print Assumptions C09_custom_subst_pam_record_ok.
+Print Assumptions C09_custom_example.
